@@ -66,3 +66,25 @@ pub assume_specification [i128::pow] (base: i128, exp: u32) -> (r: i128)
 pub assume_specification [u32::pow] (base: u32, exp: u32) -> (r: u32)
     ensures vstd::arithmetic::power::pow(base as int, exp as nat) <= u32::MAX as int,
         r as int == vstd::arithmetic::power::pow(base as int, exp as nat);
+pub assume_specification<T> [bool::then_some] (b: bool, t: T) -> (r: Option<T>)
+    ensures r == (if b { Some(t) } else { None::<T> });
+pub assume_specification [u128::abs_diff] (a: u128, b: u128) -> (r: u128)
+    ensures r as int == (if a >= b { a as int - b as int } else { b as int - a as int });
+/// traps on a zero divisor (returns only otherwise)
+pub assume_specification [u32::rem_euclid] (a: u32, b: u32) -> (r: u32) ensures b != 0, r as int == (a as int) % (b as int);
+pub assume_specification [u64::div_ceil] (a: u64, rhs: u64) -> (r: u64)
+    ensures rhs != 0, r as int == (a as int + rhs as int - 1) / (rhs as int);
+pub assume_specification [u64::pow] (base: u64, exp: u32) -> (r: u64)
+    ensures vstd::arithmetic::power::pow(base as int, exp as nat) <= u64::MAX as int,
+        r as int == vstd::arithmetic::power::pow(base as int, exp as nat);
+pub assume_specification<T, U, D: FnOnce() -> U, F: FnOnce(T) -> U> [Option::<T>::map_or_else] (o: Option<T>, default: D, f: F) -> (r: U)
+    requires o.is_some() ==> f.requires((o.unwrap(),)), o.is_none() ==> default.requires(()),
+    ensures o.is_none() ==> default.ensures((), r), o.is_some() ==> f.ensures((o.unwrap(),), r);
+pub assume_specification<T, E> [Result::<T, E>::unwrap_or] (res: Result<T, E>, default: T) -> (r: T)
+    ensures r == (match res { Ok(v) => v, Err(_) => default });
+pub assume_specification<T, E, F: FnOnce(E) -> T> [Result::<T, E>::unwrap_or_else] (res: Result<T, E>, f: F) -> (r: T)
+    requires res is Err ==> f.requires((res->Err_0,)),
+    ensures res is Ok ==> r == res->Ok_0, res is Err ==> f.ensures((res->Err_0,), r);
+pub assume_specification<T, E, U, F: FnOnce(T) -> Result<U, E>> [Result::<T, E>::and_then] (res: Result<T, E>, f: F) -> (r: Result<U, E>)
+    requires res is Ok ==> f.requires((res->Ok_0,)),
+    ensures res is Ok ==> f.ensures((res->Ok_0,), r), res is Err ==> r is Err && r->Err_0 == res->Err_0;
